@@ -67,3 +67,33 @@ __CPROVER_assigns(HS)
 __CPROVER_ensures(HS.calls == self->header_.sides && HS.in_order && HS.same_side);
 void h_check_supported(void) { const struct HxcHeader *h; struct HxcHeader *o; g_exc = EXC_NONE; g_exc_by_pointer = 0; hxc_check_supported(h, o); }
 void h_side_loop(void) { const struct HxcMfmFile *f; HS.calls = 0; HS.in_order = 1; HS.same_side = 1; hxc_side_loop(f); }
+
+/* ---- compute_geometry: the geometry of one side of an HxC MFM image is (number of distinct cylinder numbers, sides, number of
+   distinct record numbers, MFM).  std::set<unsigned char> is a recording model: which set each sector's cylinder and record number
+   went into, and that the two sizes handed to Geometry are those sets' sizes (a set's size IS the number of distinct values put
+   into it: the library's contract). ---- */
+enum { SET_CYL = 1, SET_REC = 2 }; enum { FIELD_cylinder = 1, FIELD_head = 2, FIELD_record = 3 }; enum { Encoding_FM = 1, Encoding_MFM = 2 };
+struct uset { int id; unsigned long inserts; };
+static struct { unsigned long cyl_ins, rec_ins; _Bool ok; unsigned long g_c, g_s; unsigned g_sides; int g_enc; unsigned geoms; } CG;
+static void uset_insert(struct uset *s, size_t sector, int field)
+{
+  if (s->id == SET_CYL) { if (field != FIELD_cylinder || sector != CG.cyl_ins) CG.ok = 0; CG.cyl_ins++; }
+  else { if (field != FIELD_record || sector != CG.rec_ins) CG.ok = 0; CG.rec_ins++; }
+  s->inserts++;
+}
+/* size(): a token that identifies WHOSE size it is (the value is the library's business) */
+static unsigned long uset_size(const struct uset *s) { return 1000000ul + (unsigned long)s->id; }
+static void geometry_model(unsigned long c, unsigned sides, unsigned long spt, int enc) { CG.g_c = c; CG.g_sides = sides; CG.g_s = spt; CG.g_enc = enc; CG.geoms++; }
+#define GEOM_LOOP_CONTRACT \
+  __CPROVER_assigns(si_, cylinders, records, CG.cyl_ins, CG.rec_ins, CG.ok) \
+  __CPROVER_loop_invariant(si_ <= sectors_n && CG.cyl_ins == si_ && CG.rec_ins == si_ && CG.ok && cylinders.id == SET_CYL && records.id == SET_REC) \
+  __CPROVER_decreases(sectors_n - si_)
+#include "hxc_compute_geometry.inc"
+static void hxc_compute_geometry(unsigned int sides, size_t sectors_n)
+__CPROVER_requires(sectors_n <= (1ul << 20) && CG.cyl_ins == 0 && CG.rec_ins == 0 && CG.ok && CG.geoms == 0)
+__CPROVER_assigns(CG)
+/* every sector's cylinder number went into the one set and its record number into the other, in order, once each */
+__CPROVER_ensures(CG.ok && CG.cyl_ins == sectors_n && CG.rec_ins == sectors_n)
+/* the geometry: (distinct cylinders, sides as given, distinct record numbers, MFM) */
+__CPROVER_ensures(CG.geoms == 1 && CG.g_c == 1000000ul + SET_CYL && CG.g_s == 1000000ul + SET_REC && CG.g_sides == sides && CG.g_enc == Encoding_MFM);
+void h_compute_geometry(void) { CG.cyl_ins = 0; CG.rec_ins = 0; CG.ok = 1; CG.geoms = 0; hxc_compute_geometry(nondet_uint(), nondet_size_t()); }
